@@ -350,6 +350,31 @@ struct Proto {
     flush(flush_rounds);
     op_end();
     census(1, (int)cell_get(NEXTID), "at the quiescent end");
+    // C17, backlog bound: every other thread has exited; T0 retires unprotected dummies one at a time.  How many it
+    // may accumulate before the first one is destroyed must be bounded by the threads alive at a time (option value =
+    // the bound for this configuration), not by the number of threads that have ever existed.
+    const long backlog = opt("backlog", 0);
+    if (backlog > 0) {
+      op_begin(OP_FLUSH);
+      int ids[64], n = 0;
+      bool destroyed = false;
+      while (!destroyed && n < backlog + 3 && n < 64) {
+        {
+          typename R::region_guard rg;
+          int prev = heap_tag(TAG_NODE);
+          Node* d = new Node(DUMMY_BASE + (int)cell_add(NDUMMY, 1));
+          heap_tag(prev);
+          ids[n++] = d->id;
+          GP g{MP(d)};
+          retire(g);
+        }
+        for (int k = 0; k < n; k++) destroyed |= cell_get(DTOR + ids[k]) != 0;
+      }
+      op_end();
+      if (!destroyed || n > backlog)
+        fail("BACKLOG", "a lone thread retired %d unprotected nodes %s although at most %ld may accumulate with the threads alive at a time", n,
+             destroyed ? "before the first one was destroyed" : "and none was destroyed", backlog);
+    }
     delete[] cells;
   }
 };
@@ -359,6 +384,10 @@ REG("hp", rec::HPs<3>, true);
 REG("hpd", rec::HPd<1>, true);
 REG("he", rec::HEs<3>, true);
 REG("hed", rec::HEd<1>, true);
+REG("hp_a1", rec::HPs_A1, true);
+REG("hpd_a1", rec::HPd_A1, true);
+REG("he_a1", rec::HEs_A1, true);
+REG("hed_a1", rec::HEd_A1, true);
 REG("qsbr", rec::QSBR, true);
 REG("ebr", rec::EBR, true);
 REG("nebr", rec::NEBR, true);
